@@ -72,6 +72,10 @@ func Judge(sc *Scenario, mr *ModelRun, out *Outcome) []Finding {
 	}
 	for _, e := range out.Events {
 		if e.Phase == "anomaly" {
+			if strings.HasPrefix(e.Note, "ctx:") {
+				add("C10", "inner-context-cancelled", "node %d: %s — in the flattened machine all nodes share one context that lives until the run ends", e.Node, e.Note)
+				continue
+			}
 			add("C01", "anomaly:"+kn(e.Node), "node %d: %s", e.Node, e.Note)
 		}
 	}
@@ -130,6 +134,9 @@ func Judge(sc *Scenario, mr *ModelRun, out *Outcome) []Finding {
 				}
 				if !e.PrepOK || !e.ExecOK {
 					add("C01", "post-arg:"+k, "node %d visit %d: %s", sg.node, sg.visit, e.Note)
+				}
+				if e.PrepOK && !e.ExecOK && nFB > 0 {
+					add("C02", "fallback-outcome-not-used:"+k, "node %d visit %d: all attempts failed and the fallback succeeded, but its outcome did not replace the exec outcome: %s", sg.node, sg.visit, e.Note)
 				}
 			}
 		}
@@ -242,6 +249,12 @@ func Judge(sc *Scenario, mr *ModelRun, out *Outcome) []Finding {
 				continue
 			}
 			nx := out.Events[i+1]
+			for j := i + 1; nx.Phase == "anomaly" && j+1 < len(out.Events); j++ {
+				nx = out.Events[j+1]
+			}
+			if nx.Phase == "anomaly" {
+				continue
+			}
 			if e.Phase == "exec" && nx.Node == e.Node && nx.Visit == e.Visit && (nx.Phase == "exec" || nx.Phase == "fallback") {
 				continue
 			}
